@@ -14,7 +14,7 @@ from esrally.utils import io as rio
 from esrally.utils import net
 
 from harness import offsets
-from harness.common import concrete
+from harness.common import StubCfg, concrete
 from symx import core
 from symx.core import fresh_bool, fresh_int, observe, s_and, shadowed
 from symx.explore import Harness
@@ -284,6 +284,77 @@ def prepare_loop(sl):
         observe("offline mode never downloads", not [x for x in log if x[0] == "download"])
 
 
+def prepare_docs_roots(sl):
+    """DefaultTrackPreparator.prepare_docs with a track given by path (two candidate data roots: next to track.json, then the corpus
+    cache) followed by set_absolute_data_path: the file the race will READ is the one that was verified"""
+    fs = SymFS()
+    log = []
+    track_dir, cache = "/tracks/mytrack", "/cache"
+    doc = "documents.json"
+    bundled_path, cached_path = real_os.path.join(track_dir, doc), real_os.path.join(cache, "corpus", doc)
+    fs.files[real_os.path.join(track_dir, "track.json")] = 10
+    usize = fresh_int("declared_uncompressed_size", 1)
+    if bool(fresh_bool("file_next_to_the_track_present")):
+        fs.files[bundled_path] = fresh_int("size_of_file_next_to_the_track", 0)
+    if bool(fresh_bool("file_in_corpus_cache_present")):
+        fs.files[cached_path] = fresh_int("size_of_file_in_corpus_cache", 0)
+    ds = track.Documents("bulk", document_file=doc, document_archive=None, base_url="https://example.org/corpus", number_of_documents=1000,
+                         compressed_size_in_bytes=None, uncompressed_size_in_bytes=usize, target_index="idx")
+    corpus = track.DocumentCorpus("corpus", documents=[ds])
+    trk = track.Track("mytrack", corpora=[corpus])
+    cfg = StubCfg({("benchmarks", "local.dataset.cache"): cache, ("track", "track.path"): track_dir})
+    tables = []
+
+    class Io:
+        @staticmethod
+        def ensure_dir(d):
+            pass
+
+        dirname = staticmethod(real_os.path.dirname)
+        basename = staticmethod(real_os.path.basename)
+        splitext = staticmethod(real_os.path.splitext)
+
+        @staticmethod
+        def has_extension(p, ext):
+            return p.endswith(ext)
+
+        @staticmethod
+        def prepare_file_offset_table(path):
+            tables.append((path, fs.files.get(path)))
+            log.append(("offset-table", path))
+            return 1000
+
+        @staticmethod
+        def remove_file_offset_table(path):
+            log.append(("remove-offset-table", path))
+
+    class OsNs(fs.os_ns()):
+        pass
+
+    OsNs.path.isdir = staticmethod(lambda p: p in (track_dir, cache))
+    OsNs.path.exists = staticmethod(lambda p: p in fs.files or p in (track_dir, cache))
+    prep = loader.DocumentSetPreparator("mytrack", loader.Downloader(offline=False, test_mode=False), loader.Decompressor())
+    with shadowed(loader, ("round", "int"), extra={"os": OsNs, "net": Net(fs, log), "io": Io, "console": offsets._Console}):
+        try:
+            loader.DefaultTrackPreparator.prepare_docs(cfg, trk, corpus, prep)
+            how, err = "ret", None
+        except Exception as e:  # noqa: BLE001
+            how, err = "raise", e
+        if how == "ret":
+            loader.set_absolute_data_path(cfg, trk)
+    core.note("steps", [x[:2] for x in log])
+    core.note("outcome", (how, repr(err)[:120], ds.document_file))
+    core.trace("steps", len(log))
+    if how == "ret":
+        used = ds.document_file
+        observe("after preparation the document file resolves to an existing file", used in fs.files)
+        if used in fs.files:
+            observe("the file the race will read has the declared size", fs.files[used] == usize)
+            observe("and it is the file whose offset table was prepared last", len(tables) >= 1 and tables[-1][0] == used and tables[-1][1] is fs.files[used])
+    else:
+        observe("failure is an explicit data / set-up error", isinstance(err, (exceptions.DataError, exceptions.SystemSetupError)))
+
+
 def bundled(sl):
     """prepare_bundled_document_set: files next to the track"""
     fs = SymFS()
@@ -463,6 +534,10 @@ HARNESSES = [
             bounds={"initial state": "document file / archive absent or present with arbitrary size", "declared sizes": "each present or absent, unbounded",
                     "flags": "base URL, offline, test mode"},
             doc="state loop: use, decompress or download; verified size; offset table last"),
+    Harness("prepare_docs_roots", prepare_docs_roots, "symbolic", lambda tier: [{}], reads=READS + [loader.DefaultTrackPreparator.prepare_docs, loader.set_absolute_data_path, loader.data_dir],
+            stubs=FS_STUB + ["net.download (postcondition of harness `download`)", "io.prepare_file_offset_table recorder"],
+            bounds={"candidate roots": "track directory then corpus cache, file present or absent in each with a symbolic size", "declared size": "symbolic"},
+            doc="track given by path: the file resolved for reading is the verified one"),
     Harness("bundled", bundled, "symbolic", lambda tier: [{}], reads=READS, stubs=FS_STUB, doc="bundled document sets"),
     Harness("decompress_dispatch", decompress_dispatch, "symbolic", lambda tier: [{"ext": i} for i in range(len(EXTS))], reads=READS,
             stubs=["external decompressors (subprocess.run): succeed or fail after partial output", "bz2/gzip/zstd/zip/tar readers: readable or corrupt archive", "open()"],
@@ -477,6 +552,8 @@ HARNESSES = [
             bounds={"crash point": "every write to the table, its creation and the rename", "targets": offsets.CRASH_TARGETS,
                     "data file": "120 000 lines; 0/1 and 0/3 extra bytes on a line before each checkpoint"},
             doc="a build interrupted anywhere never leaves a table that is used and wrong; the next preparation repairs it"),
+    Harness("table_validity", offsets.table_validity, "symbolic", lambda tier: [{}], reads=READS, stubs=FS_STUB, real_valued=True,
+            bounds={"modification times": "unbounded symbolic reals >= 0"}, doc="offset table validity for arbitrary modification times"),
     Harness("find_closest", offsets.find_closest, "symbolic", lambda tier: [{"entries": n} for n in (0, 1, 2, 4)], reads=READS, stubs=FS_STUB,
             bounds={"table entries": "0..4 with symbolic increasing byte offsets", "target line": "unbounded integer"},
             doc="find_closest_offset on unbounded targets"),
